@@ -14,8 +14,13 @@ impl Linter for LongSentences {
             let word_count = sentence.iter_words().count();
 
             if word_count > 40 {
+                // Zero-width structural tokens may sit at earlier offsets than the words they follow.
+                let covering = sentence.iter().filter(|t| !t.span.is_empty());
+                let start = covering.clone().map(|t| t.span.start).min().unwrap();
+                let end = covering.map(|t| t.span.end).max().unwrap();
+
                 output.push(Lint {
-                    span: Span::new(sentence[0].span.start, sentence.last().unwrap().span.end),
+                    span: Span::new(start, end),
                     lint_kind: LintKind::Readability,
                     message: format!("This sentence is {} words long.", word_count),
                     ..Default::default()
